@@ -1,6 +1,8 @@
 import EpModel.Lemmas.Builder
 import EpModel.Lemmas.BuilderChecksum
 import EpModel.Spec.Decode
+import EpModel.Lemmas.BuilderParse
+import EpModel.Props.C03
 /-
   C10 — PacketBuilder emits consistent, parseable packets of the announced size.
 
@@ -10,9 +12,15 @@ import EpModel.Spec.Decode
   EpModel.Lemmas.Builder.  Hypotheses: `Cfg.WF` (the field ranges / array sizes every value of the
   Rust types has) and `Encodable` (the real size fits the IPv4 / IPv6 length field, no ICMPv6 in
   IPv4), both decidable.  No bound on the payload or on any field.
+
+  Parsing (section "parsing the output"): `build_parses` — strict wire-format decoding (`Spec.decode`,
+  which by C03 is what the model of `SlicedPacket::from_*` returns) accepts every built packet and returns
+  exactly the configured layers (`expPacket`), uniformly over `Cfg` under the decidable side conditions
+  `ParseOk`; lemmas in EpModel.Lemmas.BuilderParse.
 -/
 namespace EpModel.Props.C10
 open EpModel EpModel.Codec EpModel.CodecNet EpModel.Builder EpModel.Checksum EpModel.Lemmas.Builder
+open EpModel.Lemmas.BuilderParse
 
 /-- accept ⇔ encodable, and the result is the closed form. -/
 theorem build_accepts (c : Cfg) (p : Bytes) (wf : c.WF) (enc : Encodable c p.length) :
@@ -273,18 +281,62 @@ theorem checksum_icmpv6 (h : Icmp6) (ip : Ipv6Header) (p : Bytes) (hs : ip.sourc
 
 /-! ### parsing the output
 
-Full statement (not proved here; checked on every explored case by the oracle, which runs
-`Spec.decode` on the implementation's bytes and compares with the configuration): strict
-decoding of the emitted bytes succeeds and yields the layers at the offsets of `build_layout`.
-What is proved (`build_parses_partial`): for the Ethernet II start the C08 decoder model recovers
-the configured addresses and the derived ether type and hands on exactly the remaining layers. -/
+`build_parses`: for every well-formed configuration whose build succeeds, strict wire-format decoding
+(`Spec.decode`, started where the configuration starts: Ethernet II, Linux SLL or IP) accepts the
+output and returns exactly the configured layers `expPacket c p.length` (EpModel.Lemmas.BuilderParse):
+the link window over the whole output, one `.vlan` extension per tag, the net layer (ARP; IPv4 with
+options and authentication header; IPv6 with every subset of hop-by-hop / destination options / routing /
+fragment / authentication / final destination options headers, walked in the order `set_next_headers`
+chains them) with its payload window, protocol number, length source and fragmentation flag, and the
+transport window (UDP by its length field, TCP with the header length from the data offset, ICMPv4,
+ICMPv6) - no transport layer behind ARP and in fragments.  Side conditions `ParseOk` (decidable;
+sufficient, and each of them excludes configurations for which the statement is false):
+  * VLAN tags only behind Ethernet II, ARP only behind a link layer (all the typed steps offer);
+  * a payload written without transport header (`write` of the IP step with an ip number) must not be
+    announced by a number the decoder itself interprets (51 in IPv4; 0, 43, 44, 51, 60 in IPv6; 1, 6, 17,
+    58 unless the packet is a fragment) - what such a payload parses as is up to the payload;
+  * an ICMPv4 header with type 13 / 14 and code 0 (typed timestamp header or raw) must make a 20 byte
+    message: RFC 792 timestamp messages have a fixed size and strict slicing refuses any other, so
+    `.icmpv4(TimestampRequest(..))` with a non-empty payload builds a packet the crate's own
+    `SlicedPacket::from_*` / `PacketHeaders::from_*` reject (`icmpv4_timestamp_with_payload_is_built_and_rejected`
+    below; reproduced against the crate: `Len{required_len: 20, len: 21, layer: Icmpv4Timestamp, offset 34}`).
+Through C03 (`SlicedPacket` model = `Spec.decode` on every byte string) the same packets are what the
+model of the crate's strict slicing returns (`strict_slicing_accepts_*`).  The special cases below
+spell the returned `Packet` out.  Not covered: nothing of `Cfg` is left out; outside the statement are
+only the configurations excluded by `ParseOk`, and the lax / `PacketHeaders` decoders (C04, C05). -/
 
+/-- the statement asked for in DESIGN.md; proved below as `build_parses_full` (with `ParseOk`, without
+    which it is false: see the doc comment above). -/
 def build_parses_full_statement : Prop :=
-  ∀ (c : Cfg) (p out : Bytes), c.WF → build c p = .ok out →
+  ∀ (c : Cfg) (p out : Bytes), c.WF → build c p = .ok out → ParseOk c p.length →
     (∀ h, c.link = some (.eth2 h) → ∃ pkt, Spec.decode .eth (Dec.memOf out) out.length = .ok pkt ∧
       pkt.link = some (Dec.LinkR.eth2 ⟨0, out.length⟩)) ∧
     (∀ s, c.link = some (.sll s) → ∃ pkt, Spec.decode .sll (Dec.memOf out) out.length = .ok pkt) ∧
     (c.link = none → (∀ a, c.net ≠ .arp a) → ∃ pkt, Spec.decode .ip (Dec.memOf out) out.length = .ok pkt)
+
+/-- strict decoding accepts every built packet and recovers the configured layers. -/
+theorem build_parses (c : Cfg) (p out : Bytes) (wf : c.WF) (hb : build c p = .ok out)
+    (ok : ParseOk c p.length) :
+    Spec.decode (startOf c) (Dec.memOf out) out.length = .ok (expPacket c p.length) := by
+  obtain ⟨enc, _, _, _⟩ := build_layout c p out wf hb
+  rw [build_ok c p wf enc] at hb
+  cases hb
+  exact decode_buildOk c p wf enc ok
+
+theorem build_parses_full : build_parses_full_statement := by
+  intro c p out wf hb ok
+  have h := build_parses c p out wf hb ok
+  have hs := build_size c p out wf hb
+  refine ⟨?_, ?_, ?_⟩
+  · intro e hl
+    simp only [startOf, hl] at h
+    exact ⟨_, h, by simp [expPacket, hl, hs]⟩
+  · intro s hl
+    simp only [startOf, hl] at h
+    exact ⟨_, h⟩
+  · intro hl _
+    simp only [startOf, hl] at h
+    exact ⟨_, h⟩
 
 theorem build_parses_partial (c : Cfg) (p out : Bytes) (h : Eth2) (wf : c.WF)
     (hl : c.link = some (.eth2 h)) (hb : build c p = .ok out) :
@@ -303,6 +355,244 @@ theorem build_parses_partial (c : Cfg) (p out : Bytes) (h : Eth2) (wf : c.WF)
     (outVlan c ++ outNet c p.length ++ tpBytes (outTpHeader c p) ++ p) hw
   rw [hout]
   simpa [outLink, outLinkOf, hl, List.append_assoc] using this
+
+
+/-! #### what the crate's strict slicing (model of C03) returns for built packets -/
+
+theorem refines_ok {m : Except Dec.PErr Dec.Packet} {pkt : Dec.Packet}
+    (h : EpModel.Props.C03.Refines m (.ok pkt)) : m = .ok pkt := by
+  cases m with
+  | error e => exact h.elim
+  | ok q => simp only [EpModel.Props.C03.Refines] at h; rw [h]
+
+/-- `SlicedPacket::from_ethernet` (model) accepts every packet built behind `ethernet2` and returns
+    the configured layers. -/
+theorem strict_slicing_accepts_ethernet (c : Cfg) (p out : Bytes) (h : Eth2) (wf : c.WF)
+    (hl : c.link = some (.eth2 h)) (hb : build c p = .ok out) (ok : ParseOk c p.length) :
+    Dec.slicedFromEthernet (Dec.memOf out) out.length = .ok (expPacket c p.length) := by
+  have hd := build_parses c p out wf hb ok
+  simp only [startOf, hl] at hd
+  have r := EpModel.Props.C03.strict_from_ethernet_matches_wire_formats out
+  rw [hd] at r
+  exact refines_ok r
+
+/-- `SlicedPacket::from_linux_sll` (model) accepts every packet built behind `linux_sll`. -/
+theorem strict_slicing_accepts_linux_sll (c : Cfg) (p out : Bytes) (s : Sll) (wf : c.WF)
+    (hl : c.link = some (.sll s)) (hb : build c p = .ok out) (ok : ParseOk c p.length) :
+    Dec.slicedFromLinuxSll (Dec.memOf out) out.length = .ok (expPacket c p.length) := by
+  have hd := build_parses c p out wf hb ok
+  simp only [startOf, hl] at hd
+  have r := EpModel.Props.C03.strict_from_linux_sll_matches_wire_formats out
+  rw [hd] at r
+  exact refines_ok r
+
+/-- `SlicedPacket::from_ip` (model) accepts every packet built without link layer. -/
+theorem strict_slicing_accepts_ip (c : Cfg) (p out : Bytes) (wf : c.WF)
+    (hl : c.link = none) (hb : build c p = .ok out) (ok : ParseOk c p.length) :
+    Dec.slicedFromIp (Dec.memOf out) out.length = .ok (expPacket c p.length) := by
+  have hd := build_parses c p out wf hb ok
+  simp only [startOf, hl] at hd
+  have r := EpModel.Props.C03.strict_from_ip_matches_wire_formats out
+  have hs := build_size c p out wf hb
+  have hnc : ¬ (Dec.memOf out 0 / 16 = 4 ∧ 0 < out.length ∧ out.length < 20) := by
+    intro ⟨h4, _, h20⟩
+    -- an IPv4 packet has at least 20 bytes, and an IPv6 packet does not start with the nibble 4
+    rw [hs, size_eq] at h20
+    cases hnet : c.net with
+    | arp a => have := ok.2; simp [NetOk, hnet, hl] at this
+    | ipv4 ip e => simp [netLen, hnet] at h20; omega
+    | ipv6 ip e => simp [netLen, hnet] at h20; omega
+  simp only [hnc, if_false] at r
+  rw [hd] at r
+  exact refines_ok r
+
+/-! #### special cases with the returned packet spelled out -/
+
+section special
+open EpModel.Dec (memOf ExtSlots)
+
+/-- Ethernet II / IPv4 (`.ipv4(src, dst, ttl)`: no options, no extension) / UDP -/
+theorem build_parses_eth_ipv4_udp (c : Cfg) (p out : Bytes) (h : Eth2) (src dst : Bytes) (ttl : Nat) (u : Udp)
+    (wf : c.WF) (hl : c.link = some (.eth2 h)) (hv : c.vlan = none) (hn : c.net = Step.ipv4 src dst ttl)
+    (ht : c.tp = some (.udp u)) (hb : build c p = .ok out) :
+    Spec.decode .eth (memOf out) out.length = .ok
+      { link := some (.eth2 ⟨0, out.length⟩), exts := [],
+        net := some (.ip { v4 := true, hdr := ⟨14, 20⟩, auth := none, exts := ⟨14, 0⟩, first := none,
+                           slots := ExtSlots.none,
+                           pl := { num := 17, frag := false, src := .ipv4HeaderTotalLen,
+                                   w := ⟨34, 8 + p.length⟩, inc := false } }),
+        tp := some (.udp ⟨34, 8 + p.length⟩), stop := none } ∧
+    out.length = 42 + p.length := by
+  have ok : ParseOk c p.length := by
+    simp [ParseOk, NetOk, RawOk, TpOk, hl, hn, ht, Step.ipv4]
+  have hd := build_parses c p out wf hb ok
+  have hs := build_size c p out wf hb
+  simp only [startOf, hl] at hd
+  rw [hd]
+  simp [expPacket, expExtsAt, expNetAt, expTpAt, expTp, expIpv4, v4Frag, cfgFrag, linkLen, vlanLen, netLen,
+    endNum, tpHeaderLen, Tp.headerLen, Tp.ipNumber, Udp.headerLen, Ipv4Extensions.headerLen, hl, hv, hn, ht, Step.ipv4, hs,
+    size, Eth2.headerLen, Ipv4Header.headerLen]
+
+
+
+/-- Ethernet II / IPv6 (`.ipv6(src, dst, hop_limit)`: no extension headers) / UDP.  The payload length
+    field is `8 + p.length`, never 0, so the "zero = up to the end of the slice" convention does not
+    apply and the length source is the IPv6 header. -/
+theorem build_parses_eth_ipv6_udp (c : Cfg) (p out : Bytes) (h : Eth2) (src dst : Bytes) (hop : Nat) (u : Udp)
+    (wf : c.WF) (hl : c.link = some (.eth2 h)) (hv : c.vlan = none) (hn : c.net = Step.ipv6 src dst hop)
+    (ht : c.tp = some (.udp u)) (hb : build c p = .ok out) :
+    Spec.decode .eth (memOf out) out.length = .ok
+      { link := some (.eth2 ⟨0, out.length⟩), exts := [],
+        net := some (.ip { v4 := false, hdr := ⟨14, 40⟩, auth := none, exts := ⟨54, 0⟩, first := none,
+                           slots := ExtSlots.none,
+                           pl := { num := 17, frag := false, src := .ipv6HeaderPayloadLen,
+                                   w := ⟨54, 8 + p.length⟩, inc := false } }),
+        tp := some (.udp ⟨54, 8 + p.length⟩), stop := none } ∧
+    out.length = 62 + p.length := by
+  have ok : ParseOk c p.length := by
+    simp [ParseOk, NetOk, RawOk, TpOk, hl, hn, ht, Step.ipv6]
+  have hd := build_parses c p out wf hb ok
+  have hs := build_size c p out wf hb
+  simp only [startOf, hl] at hd
+  rw [hd]
+  simp [expPacket, expExtsAt, expNetAt, expTpAt, expTp, expIpv6, extsFrag, fragOf, cfgFrag, linkLen, vlanLen, netLen,
+    endNum, tpHeaderLen, Tp.headerLen, Tp.ipNumber, Udp.headerLen, Ipv6Exts.headerLen, Ipv6Exts.empty, optLen,
+    hl, hv, hn, ht, Step.ipv6, hs, size, Eth2.headerLen]
+
+/-- a single VLAN tag in front, TCP (any flags, any option area): one `.vlan` extension over everything
+    behind the Ethernet header; the TCP header length is the one the data offset announces. -/
+theorem build_parses_eth_vlan_ipv4_tcp (c : Cfg) (p out : Bytes) (h : Eth2) (v : Vlan) (src dst : Bytes)
+    (ttl : Nat) (t : Tcp) (wf : c.WF) (hl : c.link = some (.eth2 h)) (hv : c.vlan = some (.single v))
+    (hn : c.net = Step.ipv4 src dst ttl) (ht : c.tp = some (.tcp t)) (hb : build c p = .ok out) :
+    Spec.decode .eth (memOf out) out.length = .ok
+      { link := some (.eth2 ⟨0, out.length⟩), exts := [.vlan ⟨14, 44 + t.opts.len + p.length⟩],
+        net := some (.ip { v4 := true, hdr := ⟨18, 20⟩, auth := none, exts := ⟨18, 0⟩, first := none,
+                           slots := ExtSlots.none,
+                           pl := { num := 6, frag := false, src := .ipv4HeaderTotalLen,
+                                   w := ⟨38, 20 + t.opts.len + p.length⟩, inc := false } }),
+        tp := some (.tcp ⟨38, 20 + t.opts.len + p.length⟩ (20 + t.opts.len)), stop := none } ∧
+    out.length = 58 + t.opts.len + p.length := by
+  have ok : ParseOk c p.length := by
+    simp [ParseOk, NetOk, RawOk, TpOk, hl, hn, ht, Step.ipv4]
+  have hd := build_parses c p out wf hb ok
+  have hs := build_size c p out wf hb
+  simp only [startOf, hl] at hd
+  rw [hd]
+  simp [expPacket, expExtsAt, expNetAt, expTpAt, expTp, expIpv4, v4Frag, cfgFrag, linkLen, vlanLen, netLen,
+    endNum, tpHeaderLen, Tp.headerLen, Tp.ipNumber, Tcp.headerLen, Ipv4Extensions.headerLen, hl, hv, hn, ht, Step.ipv4, hs,
+    size, Eth2.headerLen, Ipv4Header.headerLen]
+  omega
+
+/-- two VLAN tags in front (0x88a8, then 0x8100), ICMPv6 in IPv6: two `.vlan` extensions, the outer one
+    covering the inner. -/
+theorem build_parses_eth_qinq_ipv6_icmpv6 (c : Cfg) (p out : Bytes) (h : Eth2) (vo vi : Vlan) (src dst : Bytes)
+    (hop : Nat) (i : Icmp6) (wf : c.WF) (hl : c.link = some (.eth2 h)) (hv : c.vlan = some (.double vo vi))
+    (hn : c.net = Step.ipv6 src dst hop) (ht : c.tp = some (.icmp6 i)) (hb : build c p = .ok out) :
+    Spec.decode .eth (memOf out) out.length = .ok
+      { link := some (.eth2 ⟨0, out.length⟩),
+        exts := [.vlan ⟨14, 56 + p.length⟩, .vlan ⟨18, 52 + p.length⟩],
+        net := some (.ip { v4 := false, hdr := ⟨22, 40⟩, auth := none, exts := ⟨62, 0⟩, first := none,
+                           slots := ExtSlots.none,
+                           pl := { num := 58, frag := false, src := .ipv6HeaderPayloadLen,
+                                   w := ⟨62, 8 + p.length⟩, inc := false } }),
+        tp := some (.icmp6 ⟨62, 8 + p.length⟩), stop := none } ∧
+    out.length = 70 + p.length := by
+  have ok : ParseOk c p.length := by
+    simp [ParseOk, NetOk, RawOk, TpOk, hl, hn, ht, Step.ipv6]
+  have hd := build_parses c p out wf hb ok
+  have hs := build_size c p out wf hb
+  simp only [startOf, hl] at hd
+  rw [hd]
+  simp [expPacket, expExtsAt, expNetAt, expTpAt, expTp, expIpv6, extsFrag, fragOf, cfgFrag, linkLen, vlanLen, netLen,
+    endNum, tpHeaderLen, Tp.headerLen, Tp.ipNumber, Icmp6.headerLen, Ipv6Exts.headerLen, Ipv6Exts.empty, optLen,
+    hl, hv, hn, ht, Step.ipv6, hs, size, Eth2.headerLen]
+  omega
+
+/-- ICMPv4 echo request / reply (`.icmpv4_echo_request`, `.icmpv4_echo_reply`) in IPv4 -/
+theorem build_parses_eth_ipv4_icmpv4_echo (c : Cfg) (p out : Bytes) (h : Eth2) (src dst : Bytes) (ttl id seq : Nat)
+    (wf : c.WF) (hl : c.link = some (.eth2 h)) (hv : c.vlan = none) (hn : c.net = Step.ipv4 src dst ttl)
+    (ht : c.tp = some (Step.icmpv4EchoRequest id seq) ∨ c.tp = some (Step.icmpv4EchoReply id seq))
+    (hb : build c p = .ok out) :
+    Spec.decode .eth (memOf out) out.length = .ok
+      { link := some (.eth2 ⟨0, out.length⟩), exts := [],
+        net := some (.ip { v4 := true, hdr := ⟨14, 20⟩, auth := none, exts := ⟨14, 0⟩, first := none,
+                           slots := ExtSlots.none,
+                           pl := { num := 1, frag := false, src := .ipv4HeaderTotalLen,
+                                   w := ⟨34, 8 + p.length⟩, inc := false } }),
+        tp := some (.icmp4 ⟨34, 8 + p.length⟩), stop := none } := by
+  have hs := build_size c p out wf hb
+  rcases ht with ht | ht
+  all_goals
+    have ok : ParseOk c p.length := by
+      simp [ParseOk, NetOk, RawOk, TpOk, Icmp4Ok, icmp4TypeCode, hl, hn, ht, Step.ipv4, Step.icmpv4EchoRequest,
+        Step.icmpv4EchoReply]
+    have hd := build_parses c p out wf hb ok
+    simp only [startOf, hl] at hd
+    rw [hd]
+    simp [expPacket, expExtsAt, expNetAt, expTpAt, expTp, expIpv4, v4Frag, cfgFrag, linkLen, vlanLen, netLen,
+      endNum, tpHeaderLen, Tp.headerLen, Tp.ipNumber, Icmp4.headerLen, Ipv4Extensions.headerLen, hl, hv, hn, ht,
+      Step.ipv4, Step.icmpv4EchoRequest, Step.icmpv4EchoReply, hs, size, Eth2.headerLen, Ipv4Header.headerLen]
+
+/-- no link layer, IPv4 payload announced by an ip number the decoder does not interpret
+    (`PacketBuilder::ipv4(..).write(&mut w, number, payload)`): `from_ip` returns the IPv4 layer with the
+    payload window and the number, and no transport layer. -/
+theorem build_parses_ip_raw_ipv4 (c : Cfg) (p out : Bytes) (src dst : Bytes) (ttl : Nat)
+    (wf : c.WF) (hl : c.link = none) (hv : c.vlan = none) (hn : c.net = Step.ipv4 src dst ttl) (ht : c.tp = none)
+    (hnum : c.last ≠ 1 ∧ c.last ≠ 6 ∧ c.last ≠ 17 ∧ c.last ≠ 51 ∧ c.last ≠ 58) (hb : build c p = .ok out) :
+    Spec.decode .ip (memOf out) out.length = .ok
+      { link := none, exts := [],
+        net := some (.ip { v4 := true, hdr := ⟨0, 20⟩, auth := none, exts := ⟨0, 0⟩, first := none,
+                           slots := ExtSlots.none,
+                           pl := { num := c.last, frag := false, src := .ipv4HeaderTotalLen,
+                                   w := ⟨20, p.length⟩, inc := false } }),
+        tp := none, stop := none } ∧
+    out.length = 20 + p.length := by
+  have ok : ParseOk c p.length := by
+    simp [ParseOk, NetOk, RawOk, TpOk, hl, hv, hn, ht, Step.ipv4, hnum]
+  have hd := build_parses c p out wf hb ok
+  have hs := build_size c p out wf hb
+  simp only [startOf, hl] at hd
+  rw [hd]
+  simp [expPacket, expExtsAt, expNetAt, expTpAt, expTp, expIpv4, v4Frag, cfgFrag, linkLen, vlanLen, 
+    endNum, tpHeaderLen, Ipv4Extensions.headerLen, hl, hv, hn, ht, Step.ipv4, hs, size, Ipv4Header.headerLen]
+
+/-- the same over IPv6 (numbers of the extension headers excluded as well) -/
+theorem build_parses_ip_raw_ipv6 (c : Cfg) (p out : Bytes) (src dst : Bytes) (hop : Nat)
+    (wf : c.WF) (hl : c.link = none) (hv : c.vlan = none) (hn : c.net = Step.ipv6 src dst hop) (ht : c.tp = none)
+    (hnum : c.last ≠ 0 ∧ c.last ≠ 1 ∧ c.last ≠ 6 ∧ c.last ≠ 17 ∧ c.last ≠ 43 ∧ c.last ≠ 44 ∧ c.last ≠ 51 ∧
+      c.last ≠ 58 ∧ c.last ≠ 60) (hb : build c p = .ok out) :
+    Spec.decode .ip (memOf out) out.length = .ok
+      { link := none, exts := [],
+        net := some (.ip { v4 := false, hdr := ⟨0, 40⟩, auth := none, exts := ⟨40, 0⟩, first := none,
+                           slots := ExtSlots.none,
+                           pl := { num := c.last, frag := false, src := .ipv6HeaderPayloadLen,
+                                   w := ⟨40, p.length⟩, inc := false } }),
+        tp := none, stop := none } ∧
+    out.length = 40 + p.length := by
+  have ok : ParseOk c p.length := by
+    simp [ParseOk, NetOk, RawOk, TpOk, hl, hv, hn, ht, Step.ipv6, hnum]
+  have hd := build_parses c p out wf hb ok
+  have hs := build_size c p out wf hb
+  simp only [startOf, hl] at hd
+  rw [hd]
+  simp [expPacket, expExtsAt, expNetAt, expTpAt, expTp, expIpv6, extsFrag, fragOf, cfgFrag, linkLen, vlanLen, 
+    endNum, tpHeaderLen, Ipv6Exts.headerLen, Ipv6Exts.empty, optLen, hl, hv, hn, ht, Step.ipv6, hs, size]
+
+/-- ARP behind Ethernet II: the ARP window is `packet_len()`, there is no transport layer. -/
+theorem build_parses_eth_arp (c : Cfg) (p out : Bytes) (h : Eth2) (a : Arp)
+    (wf : c.WF) (hl : c.link = some (.eth2 h)) (hv : c.vlan = none) (hn : c.net = .arp a)
+    (hb : build c p = .ok out) :
+    Spec.decode .eth (memOf out) out.length = .ok
+      { link := some (.eth2 ⟨0, out.length⟩), exts := [], net := some (.arp ⟨14, a.headerLen⟩), tp := none,
+        stop := none } := by
+  have ok : ParseOk c p.length := by simp [ParseOk, NetOk, hl, hn]
+  have hd := build_parses c p out wf hb ok
+  have hs := build_size c p out wf hb
+  simp only [startOf, hl] at hd
+  rw [hd]
+  simp [expPacket, expExtsAt, expNetAt, expTpAt, linkLen, vlanLen, hl, hv, hn, hs]
+
+end special
 
 /-! ### non-vacuity: concrete configurations satisfy the hypotheses (and the negations) -/
 
@@ -323,5 +613,36 @@ def exCfg6 : Cfg :=
 example : exCfg.WF ∧ Encodable exCfg 8 ∧ ¬ Encodable exCfg 65508 := by decide
 example : exCfg6.WF ∧ Encodable exCfg6 65519 ∧ ¬ Encodable exCfg6 65520 := by decide
 example : ¬ Encodable { exCfg with tp := some (Step.icmpv6EchoRequest 1 2) } 0 := by decide
+
+
+/-! parsing: the side conditions hold for the sample configurations; the expected packet of a
+    configuration with an IPv6 fragment header, evaluated; and the ICMPv4 timestamp case: a 21 byte
+    timestamp request is built without error and refused by strict decoding ("too long for a
+    timestamp message"), so `ParseOk` cannot be dropped from `build_parses`. -/
+
+example : ParseOk exCfg 8 ∧ ParseOk exCfg6 3 := by decide
+
+example : expPacket exCfg6 3 =
+    { link := some (.eth2 ⟨0, 77⟩), exts := [.vlan ⟨14, 63⟩],
+      net := some (.ip { v4 := false, hdr := ⟨18, 40⟩, auth := none, exts := ⟨58, 8⟩, first := some 44,
+                         slots := Dec.ExtSlots.none,
+                         pl := { num := 58, frag := false, src := .ipv6HeaderPayloadLen, w := ⟨66, 11⟩,
+                                 inc := false } }),
+      tp := some (.icmp6 ⟨66, 11⟩), stop := none } := by decide
+
+def exCfgTs : Cfg := { exCfg with vlan := none, tp := some (Step.icmpv4 (.tsRequest 1 2 3 4 5)) }
+
+def faultOf : Except Spec.Fault Dec.Packet → Option Spec.Fault
+  | .error f => some f
+  | .ok _ => none
+
+example : exCfgTs.WF ∧ Encodable exCfgTs 1 ∧ ParseOk exCfgTs 0 ∧ ¬ ParseOk exCfgTs 1 := by decide
+
+theorem icmpv4_timestamp_with_payload_is_built_and_rejected :
+    build exCfgTs [7] = .ok (buildOk exCfgTs [7]) ∧
+    faultOf (Spec.decode .eth (Dec.memOf (buildOk exCfgTs [7])) (buildOk exCfgTs [7]).length)
+      = some { cls := .tooLong, unit := .icmp4, off := 34, avail := 21, need := 20,
+               lim := .ipv4HeaderTotalLen, value := 0 } :=
+  ⟨build_accepts exCfgTs [7] (by decide) (by decide), by decide⟩
 
 end EpModel.Props.C10
